@@ -286,6 +286,9 @@ def rb_body(v, geom, flowcase=None):
     from ghedesigner.media import Grout, Pipe, Soil
     g = GEOMS[geom]
     sym = v.e is not None
+    if sym:
+        for part in B.RB_STATE.values():      # the stub state belongs to one path: fresh coefficients (with their bounds) on every path
+            part.clear()
     k_g = v.real('k_g', 0.3, 3.5)
     k_s = v.real('k_s', 0.5, 5.0)
     k_p = v.real('k_p', 0.2, 1.0)
@@ -311,7 +314,8 @@ def rb_body(v, geom, flowcase=None):
         pipe = Pipe(Pipe.place_pipes(g['s'], g['r_out'], 2), g['r_in'], g['r_out'], g['s'], 1e-6, k_p, 1542000.0)
         orig = B.MultipleUTube(m, fluid, bh, pipe, grout, soil, config=getattr(DoubleUTubeConnType, g['config']))
     else:
-        pipe = Pipe((0, 0), list(g['r_inner']), list(g['r_outer']), 0, 1e-6, (k_p, k_p), 1542000.0)
+        k_po = v.real('k_p_outer', 0.2, 1.0)          # inner pipe k_p, outer pipe k_p_outer: independent
+        pipe = Pipe((0, 0), list(g['r_inner']), list(g['r_outer']), 0, 1e-6, (k_p, k_po), 1542000.0)
         orig = B.CoaxialPipe(m, fluid, bh, pipe, grout, soil)
     rec = {}
     real_solve = U.solve_root
@@ -343,6 +347,15 @@ def rb_body(v, geom, flowcase=None):
     else:
         vf, vp, rconv, rpipe = orig.concentric_tube_volumes()
     target = rconv + rpipe
+    # the same two resistances restated from the raw inputs (not through *_volumes): total inside surface n pi (2 r_in)^2 of the double-U
+    # legs / the outer pipe's inner wall 2 pi r_out_in of the annulus; wall of all legs in parallel / wall of the OUTER coaxial pipe
+    if g['kind'] == 'du':
+        n_t = 4
+        ind_conv = 1 / (orig.h_f * (n_t * PI * (g['r_in'] * 2.0) ** 2))
+        ind_pipe = math.log(g['r_out'] / g['r_in']) / (n_t * 2 * PI * k_p)
+    else:
+        ind_conv = 1 / (orig.h_f_a_in * (PI * 2 * g['r_outer'][0]))
+        ind_pipe = math.log(g['r_outer'][1] / g['r_outer'][0]) / (2 * PI * k_po)
     out = {}
     if sym:
         snap = single._Rd
@@ -353,6 +366,7 @@ def rb_body(v, geom, flowcase=None):
         out['rfp_matched_when_root_bracketed'] = implies(rp['bracketed'], single.R_fp == target)
         out['pipe_k_consistent'] = implies(rp['bracketed'], single.pipe.k == rp['returned'])
         out['rfp_matched'] = single.R_fp == target            # unconditional: claimed only where the convection coefficients are concrete
+        out['targets_as_documented'] = conj([abs(rconv - ind_conv) <= 1e-9 * ind_conv, abs(rpipe - ind_pipe) <= 1e-9 * ind_pipe])
         out['same_flow_and_soil'] = conj([single.m_flow_borehole is m, single.soil is soil, single.grout is not grout, grout.k is k_g, orig.pipe.k is k_p or g['kind'] != 'du'])
     else:
         out['objective_strictly_increasing_in_k_grout'] = bool(rg['monotone'])
@@ -366,6 +380,7 @@ def rb_body(v, geom, flowcase=None):
         out['rfp_matched_when_root_bracketed'] = (not rp['bracketed']) or abs(single.R_fp - target) <= 1e-3 * target
         out['pipe_k_consistent'] = (not rp['bracketed']) or abs(single.pipe.k - rp['returned']) <= 1e-5 * max(1.0, rp['returned'])
         out['rfp_matched'] = abs(single.R_fp - target) <= 1e-3 * target
+        out['targets_as_documented'] = abs(rconv - ind_conv) <= 1e-9 * ind_conv and abs(rpipe - ind_pipe) <= 1e-9 * ind_pipe
         out['same_flow_and_soil'] = single.m_flow_borehole == m and single.soil is soil and single.grout is not grout and grout.k == k_g
         out['_observed'] = dict(rb_original=rb_orig, rb_equivalent=before, rb_equivalent_recomputed=after, k_grout_equivalent=single.grout.k,
                                  objective_at_k1_k2='constant' if not rg['monotone'] else 'increasing')
@@ -373,8 +388,8 @@ def rb_body(v, geom, flowcase=None):
 
 
 GROUT = ('objective_strictly_increasing_in_k_grout', 'stored_resistances_match_final_parameters', 'rb_matched_when_root_bracketed', 'grout_k_is_the_root')
-PIPE = ('rfp_matched_when_root_bracketed', 'pipe_k_consistent', 'same_flow_and_soil')
-PIPE_FLOW = ('rfp_matched', 'pipe_k_consistent')
+PIPE = ('rfp_matched_when_root_bracketed', 'pipe_k_consistent', 'same_flow_and_soil', 'targets_as_documented')
+PIPE_FLOW = ('rfp_matched', 'pipe_k_consistent', 'targets_as_documented')
 
 
 def make_rb_fn(geom, names, twin=False, flowcase=None):
@@ -391,7 +406,7 @@ def make_rb_fn(geom, names, twin=False, flowcase=None):
 def make_rb_replay(geom, names, flowcase=None):
     def replay(model, notes):
         restore_shadows()
-        out = rb_body(V(model=dict(model, m_flow=model.get('m_flow', 0.3))), geom, flowcase)
+        out = rb_body(V(model=dict(model, m_flow=model.get('m_flow', 0.3), k_p_outer=model.get('k_p_outer', 0.4))), geom, flowcase)
         bad = [n for n in names if not out[n]]
         return bool(bad), dict(failed=bad, observed=out.get('_observed'), inputs=model)
     return replay
